@@ -321,6 +321,17 @@ func Sign(alg int64, km KeyMat, tbs, entropy []byte) []byte {
 	panic(fmt.Sprintf("refcose: cannot sign with alg %d", alg))
 }
 
+// SignPSSSalt signs tbs with RSASSA-PSS using the hash of alg and the given salt
+// length (which for a conforming PSnnn signature is the hash length, RFC 8230 2).
+func SignPSSSalt(alg int64, km KeyMat, tbs []byte, saltLen int) []byte {
+	h := HashFor(alg)
+	sig, err := rsa.SignPSS(constReader(0x5a), km.Private().(*rsa.PrivateKey), h, Digest(h, tbs), &rsa.PSSOptions{SaltLength: saltLen})
+	if err != nil {
+		panic(err)
+	}
+	return sig
+}
+
 // SigStructure1 builds the Sig_structure of a COSE_Sign1 (RFC 9052 4.4).
 // protContent is the *content* of the protected-header byte string.
 func SigStructure1(protContent, external, payload []byte) []byte {
